@@ -15,6 +15,14 @@ def case(rng):
     k = rng.random()
     tilts = [rng.uniform(-0.3, 0.3) if rng.random() < 0.85 else 0.0 for _ in range(3)]
     pos = [rng.uniform(-2, 2) if rng.random() < 0.85 else 0.0 for _ in range(3)]
+    if rng.random() < 0.12 and (tilts[1] != 0 or tilts[2] != 0):
+        # the scattered ray (almost) along the normal of the tilted detector: 2theta and eta taken from the first column of Rx.Ry.Rz, then moved by 0 .. 1e-4 rad
+        nrm = G.Rx(tilts[0]).dot(G.Ry(tilts[1])).dot(G.Rz(tilts[2]))[:, 0]
+        t0 = math.acos(max(-1.0, min(1.0, nrm[0])))
+        if math.radians(0.5) < t0 < math.radians(60):
+            d = rng.choice([0.0, 1e-9, 1e-7, 3e-6, 8e-6, 5e-5]) * rng.choice([-1, 1])
+            tth = t0 + d
+            eta = math.atan2(-nrm[1], nrm[2]) + rng.choice([0.0, d, -d])
     return tth, eta, L, py, pz, y0, z0, tilts, pos
 
 
